@@ -39,7 +39,7 @@ static void *verif_alloc(void *addr, a_size size)
     if (addr)
     {
         a_size old = __CPROVER_OBJECT_SIZE(addr), k;
-        __CPROVER_assert(old <= 32, "allocator model: only nodes are ever re-allocated here (the pool array grows from null)");
+        __CPROVER_assert(old <= 32, "allocator model: only nodes and the two-entry pool array are ever re-allocated here");
         for (k = 0; k < 32; ++k) { if (k < old && k < size) { p[k] = ((unsigned char *)addr)[k]; } }
         free(addr);
     }
@@ -71,7 +71,7 @@ static void mkq(a_que *q, a_size n, a_size c, a_size m, a_list **nodes, int *val
     unsigned k;
     a_list *prev = &q->head_;
     q->siz_ = SIZ; q->num_ = n; q->cur_ = c; q->mem_ = m;
-    q->ptr_ = m ? (a_list **)malloc(8 * sizeof(void *)) : (a_list **)A_NULL;
+    q->ptr_ = m == 0 ? (a_list **)A_NULL : m == 2 ? (a_list **)malloc(2 * sizeof(void *)) : (a_list **)malloc(8 * sizeof(void *));
     ASSUME(m == 0 || q->ptr_ != A_NULL);
     if (m) { ++verif_live; }
     for (k = 0; k < MAXQ; ++k)
@@ -108,7 +108,7 @@ static void mk(void)
     verif_live = 0; verif_alloc_failed = 0; verif_requests = 0;
     { ND(unsigned, fail_mask, u32); verif_fail_mask = fail_mask; }
     ND(a_size, n_, size); ND(a_size, c_, size); ND(a_size, m_, size);
-    ASSUME(n_ <= MAXQ && (m_ == 0 || m_ == 8) && c_ <= MAXC && c_ <= m_);
+    ASSUME(n_ <= MAXQ && (m_ == 0 || m_ == 2 || m_ == 8) && c_ <= MAXC && c_ <= m_); /* pool capacity 2: a nearly full pool (reachable states have multiples of 8; the code never relies on that) */
     n0 = n_; c0 = c_; m0 = m_;
     for (k = 0; k < MAXQ; ++k) { int v; ND_ARR(v, val0, k, int); val0[k] = v; }
     mkq(&Q, n0, c0, m0, node0, val0, pool0);
